@@ -599,3 +599,36 @@ func ConstF64(v float64) []byte {
 func ConstGlobalGet(i uint32) []byte { return append([]byte{0x23}, u(i)...) }
 func ConstRefNull(t ValType) []byte  { return []byte{0xd0, byte(t)} }
 func ConstRefFunc(f uint32) []byte   { return append([]byte{0xd2}, u(f)...) }
+
+// DegenerateDWARF returns three custom sections (.debug_abbrev, .debug_info, .debug_line) to append to a
+// binary: well-formed DWARF 4 whose single compilation unit covers code offsets 1..1+2^20 and whose line
+// table has rows but NO file entries (a row without a file).  Guest-chosen bytes: whatever reads them
+// while building a stack trace must cope.
+func DegenerateDWARF() []byte {
+	le32 := func(v uint32) []byte { return []byte{byte(v), byte(v >> 8), byte(v >> 16), byte(v >> 24)} }
+	abbrev := []byte{1, 0x11, 0, 0x10, 0x17, 0x11, 0x01, 0x12, 0x06, 0, 0, 0}
+	infoBody := []byte{4, 0, 0, 0, 0, 0, 4, 1}
+	infoBody = append(infoBody, le32(0)...)
+	infoBody = append(infoBody, le32(1)...)
+	infoBody = append(infoBody, le32(1<<20)...)
+	info := append(le32(uint32(len(infoBody))), infoBody...)
+	hdrRest := []byte{1, 1, 1, 0xfb, 14, 13, 0, 1, 1, 1, 1, 0, 0, 0, 1, 0, 0, 1, 0, 0}
+	program := []byte{0x00, 5, 0x02, 1, 0, 0, 0, 0x01, 0x02, 0x80, 0x80, 0x20, 0x00, 1, 0x01} // set_address 1; copy; advance_pc 2^19; end_sequence
+	lineBody := []byte{4, 0}
+	lineBody = append(lineBody, le32(uint32(len(hdrRest)))...)
+	lineBody = append(lineBody, hdrRest...)
+	lineBody = append(lineBody, program...)
+	line := append(le32(uint32(len(lineBody))), lineBody...)
+	var out []byte
+	for _, s := range []struct {
+		name string
+		data []byte
+	}{{".debug_abbrev", abbrev}, {".debug_info", info}, {".debug_line", line}} {
+		body := append(ULEB(uint64(len(s.name))), s.name...)
+		body = append(body, s.data...)
+		out = append(out, 0)
+		out = append(out, ULEB(uint64(len(body)))...)
+		out = append(out, body...)
+	}
+	return out
+}
